@@ -5,6 +5,11 @@
     @ from <rows>                            Matrix::from(vec![vec![…], …]); rows `1,2;3,4`,
                                              `-` an empty row, `none` no rows at all (may be jagged)
     @ flat <R> <C> <values>                  Matrix::from_flat_row_major((R, C), values)
+    @ row <values> | @ column <values>       Matrix::row / Matrix::column
+    @ scalar <v> via=from_scalar|unit        Matrix::from_scalar / Matrix::unit
+    @ empty <R> <C> <v>                      Matrix::empty(v, (R, C))
+    @ diagonal <R> <C> <v>                   Matrix::diagonal(v, (R, C))      (T::zero() = 0)
+    @ from_diagonal <values>                 Matrix::from_diagonal(values)
     insert_row <row> <value>
     insert_row_with <row> <values>
     insert_column <column> <value>
@@ -18,6 +23,9 @@
     set <row> <column> <value> via=set|get_reference_mut
     map_mut <k>                              x ↦ x + k
     map_mut_with_index <k>                   x at (i, j) ↦ x + k·(i+1) + j
+    map <k> | map_with_index <k>             the allocating forms (the result replaces the matrix)
+    scalar                                   → val=<v> | panic         (read-only, &self)
+    try_into_scalar                          → ok(<v>) | err           (on a clone)
     try <op …>                               the operation on a clone; the matrix itself is kept
 
   Answer: `<ok|panic> <R>x<C> <rows> rm=<row_major_iter> cm=<column_major_iter> ## len=<data.len()> kind=<panic kind>`
@@ -133,6 +141,9 @@ def parseOp (toks : List String) : Option (Matrix.Op Nat) :=
   | "map_mut" :: k :: _ => k.toNat?.map fun k => .mapMut (· + k)
   | "map_mut_with_index" :: k :: _ =>
     k.toNat?.map fun k => .mapMutWithIndex fun x i j => x + k * (i + 1) + j
+  | "map" :: k :: _ => k.toNat?.map fun k => .map (· + k)
+  | "map_with_index" :: k :: _ =>
+    k.toNat?.map fun k => .mapWithIndex fun x i j => x + k * (i + 1) + j
   | _ => none
 
 /-! printing -/
@@ -162,44 +173,80 @@ def answer (panicked : Bool) (rs : Rows Nat) (res : Matrix.Res Nat) : String :=
   if spec = model then s!"{spec} ## len={res.state.data.length}{kind}"
   else s!"{spec} ## MODEL-SPEC-DISAGREE {model}"
 
-def construct (m? : Option (Matrix Nat)) (specOk : Bool) (rs : Rows Nat) : State × String :=
-  match m? with
-  | some m =>
-    if specOk then (some ⟨m, rs⟩, answer false rs ⟨m, none⟩)
+/-- Run a constructor through the code-shaped model (`Ctor.build`) and the specification
+    (`Rows.ctorPre`, `Rows.ctorRows`; the rows are only materialised when the precondition holds). -/
+def construct (c : Matrix.Ctor Nat) : State × String :=
+  let pre := Rows.ctorPre c
+  match c.build with
+  | .ok m =>
+    if pre then
+      let rs := Rows.ctorRows c
+      (some ⟨m, rs⟩, answer false rs ⟨m, none⟩)
     else (none, s!"panic ## MODEL-SPEC-DISAGREE ok {showModel m}")
-  | none =>
-    if specOk then (none, s!"ok {showSpec rs} ## MODEL-SPEC-DISAGREE panic")
-    else (none, "panic ## kind=explicit")
+  | .panic k =>
+    if pre then (none, s!"ok ## MODEL-SPEC-DISAGREE panic({k})")
+    else (none, s!"panic ## kind={k}")
 
-/-- is this list of rows an acceptable constructor argument (non-empty, rectangular, no empty row) -/
-def rowsAcceptable (rs : List (List Nat)) : Bool :=
-  match rs with
-  | [] => false
-  | r :: _ => !r.isEmpty && rs.all (·.length == r.length)
+def parseCtor (toks : List String) : Option (Matrix.Ctor Nat) :=
+  match toks with
+  | "new" :: sz :: rest =>
+    match parseSize sz with
+    | some (r, c) =>
+      let via := (optArg "via" rest).getD "from"
+      -- the elements 1..r*c in row-major order
+      if via = "from" then
+        some (.fromRows ((List.range r).map fun i => (List.range c).map fun j => i * c + j + 1))
+      else if via = "flat" then some (.fromFlatRowMajor r c (List.range' 1 (r * c)))
+      else some (.fromFn r c fun i j => i * c + j + 1)
+    | none => none
+  | ["from", rowsS] => (parseRows rowsS).map .fromRows
+  | ["flat", rS, cS, valsS] =>
+    match rS.toNat?, cS.toNat?, parseNatList valsS with
+    | some r, some c, some vals => some (.fromFlatRowMajor r c vals)
+    | _, _, _ => none
+  | ["row", valsS] => (parseNatList valsS).map .row
+  | ["column", valsS] => (parseNatList valsS).map .column
+  | "scalar" :: v :: _ => v.toNat?.map .fromScalar
+  | ["empty", rS, cS, vS] =>
+    match rS.toNat?, cS.toNat?, vS.toNat? with
+    | some r, some c, some v => some (.empty v r c)
+    | _, _, _ => none
+  | ["diagonal", rS, cS, vS] =>
+    match rS.toNat?, cS.toNat?, vS.toNat? with
+    | some r, some c, some v => some (.diagonal 0 v r c)
+    | _, _, _ => none
+  | ["from_diagonal", valsS] => (parseNatList valsS).map (.fromDiagonal 0)
+  | _ => none
 
 def step (s : State) (toks : List String) : State × String :=
   match toks with
-  | "@" :: "new" :: sz :: _ =>
-    match parseSize sz with
-    | some (r, c) =>
-      -- the elements 1..r*c in row-major order; `from` receives them as rows
-      let rs : Rows Nat := (List.range r).map fun i => (List.range c).map fun j => i * c + j + 1
-      let via := (optArg "via" toks).getD "from"
-      let m? := if via = "from" then Matrix.fromRows rs
-                else Matrix.fromFlatRowMajor r c (List.range' 1 (r * c))
-      -- from_fn((r, c), …) ends in from_flat_row_major, same acceptance
-      construct m? (decide (1 ≤ r) && decide (1 ≤ c)) rs
+  | "@" :: rest =>
+    match parseCtor rest with
+    | some c => construct c
     | none => (s, "bad-op")
-  | ["@", "from", rowsS] =>
-    match parseRows rowsS with
-    | some rs => construct (Matrix.fromRows rs) (rowsAcceptable rs) rs
-    | none => (s, "bad-op")
-  | ["@", "flat", rS, cS, valsS] =>
-    match rS.toNat?, cS.toNat?, parseNatList valsS with
-    | some r, some c, some vals =>
-      let rs : Rows Nat := (List.range r).map fun i => (vals.drop (i * c)).take c
-      construct (Matrix.fromFlatRowMajor r c vals) (decide (r * c = vals.length) && !vals.isEmpty) rs
-    | _, _, _ => (s, "bad-op")
+  | ["scalar"] =>
+    match s with
+    | none => (s, "no-matrix")
+    | some st =>
+      let spec := match Rows.scalar st.rs with
+        | .ok v => s!"val={v}"
+        | .panic _ => "panic"
+      let model := match st.m.scalarP with
+        | .ok v => s!"val={v}"
+        | .panic k => s!"panic ## kind={k}"
+      (s, if (model.splitOn " ## ").head! = spec then model else s!"{spec} ## MODEL-SPEC-DISAGREE {model}")
+  | ["try_into_scalar"] =>
+    match s with
+    | none => (s, "no-matrix")
+    | some st =>
+      let spec := match Rows.tryIntoScalar st.rs with
+        | some v => s!"ok({v})"
+        | none => "err"
+      let model := match st.m.tryIntoScalar with
+        | .ok (some v) => s!"ok({v})"
+        | .ok none => "err"
+        | .panic k => s!"panic ## kind={k}"
+      (s, if model = spec then model else s!"{spec} ## MODEL-SPEC-DISAGREE {model}")
   | "try" :: rest =>
     match s, parseOp rest with
     | none, some _ => (s, "no-matrix")
